@@ -40,7 +40,9 @@ def scalar_domain(t, node, env, small=False):
     elif t.kind == "bool":
         d = (False, True)
     elif t.kind == "enum":
-        d = tuple(v for _, v in env.enum_values(t.name) if v < INT_LIMITS[t.under]) + (unrecognized_ordinal(env, t),)
+        # declared members, a small unrecognized ordinal, and the largest ordinal the (possibly overridden) wire type holds
+        d = tuple(v for _, v in env.enum_values(t.name) if v < INT_LIMITS[t.under]) + (unrecognized_ordinal(env, t), INT_LIMITS[t.under] - 1)
+        d = tuple(dict.fromkeys(d))
     elif t.kind == "string":
         ref = node.get("length") if node is not None and node.tag == "field" else None
         if ref is None:
